@@ -96,11 +96,22 @@ def run(chk, replay=None):
     # ---------------------------------------------------------------- gridded tests
     start, end = datetime.datetime(2010, 1, 1), datetime.datetime(2011, 1, 1)
 
-    def gridded_world(nc, nb, perm=None, seed=0, via_file=False):
+    def gridded_world(nc, nb, perm=None, seed=0, via_file=False, mirror=False):
         r = random.Random(seed)
         org = [[float(i % 4), float(i // 4)] for i in range(nc)]
         data = [[10 ** r.uniform(-3, 0.5) for _ in range(nb)] for _ in range(nc)]
         data2 = [[10 ** r.uniform(-3, 0.5) for _ in range(nb)] for _ in range(nc)]
+        if mirror:
+            # forecast B is forecast A with the rates of neighbouring bins exchanged (rates are multiples of 1/64, totals
+            # identical): events in the two bins of a pair have exactly opposite log-rate differences - ties across signs,
+            # the case in which a rank statistic can come to depend on the order of the events
+            ks = r.sample(range(3, 400), nc * nb)
+            flat = [k / 64.0 for k in ks]
+            flat2 = list(flat)
+            for q in range(0, nc * nb - 1, 2):
+                flat2[q], flat2[q + 1] = flat[q + 1], flat[q]
+            data = [flat[c * nb:(c + 1) * nb] for c in range(nc)]
+            data2 = [flat2[c * nb:(c + 1) * nb] for c in range(nc)]
         if perm is None:
             perm = list(range(nc))
         mags = numpy.array([4.0 + b for b in range(nb)])
@@ -149,7 +160,13 @@ def run(chk, replay=None):
         events = [(rng.randrange(nc), rng.randrange(nb), rng.randrange(6)) for _ in range(n_ev)]
         if len({(c, b) for c, b, _ in events}) < 2:
             events[0] = ((events[1][0] + 1) % nc, events[1][1], 0)
-        org, fa, fb, mags = gridded_world(nc, nb, seed=chk.seed * 100 + t)
+        mirror = (t % 3 == 2)
+        if mirror:
+            # events in both bins of the first two exchanged pairs, several each
+            pairs_ = [(q // nb, q % nb, rng.randrange(6)) for q in (0, 1, 1, 0, 2, 3, 0) if q < nc * nb]
+            events = (pairs_ + events)[:max(n_ev, len(pairs_))]
+            n_ev = len(events)
+        org, fa, fb, mags = gridded_world(nc, nb, seed=chk.seed * 100 + t, mirror=mirror)
         ident = list(range(n_ev))
         p_ev = ident[:]
         while p_ev == ident:
@@ -157,7 +174,7 @@ def run(chk, replay=None):
         p_cell = list(range(nc))
         while p_cell == list(range(nc)):
             rng.shuffle(p_cell)
-        _, fa_p, fb_p, _ = gridded_world(nc, nb, perm=p_cell, seed=chk.seed * 100 + t, via_file=(t % 2 == 1))
+        _, fa_p, fb_p, _ = gridded_world(nc, nb, perm=p_cell, seed=chk.seed * 100 + t, via_file=(t % 2 == 1), mirror=mirror)
         for name, fn, analytic, simfree in GT:
             base = guarded_timeout(30, fn, fa, fb, gridded_catalog(org, events, ident, fa.region, mags))
             perm_ev = guarded_timeout(30, fn, fa, fb, gridded_catalog(org, events, p_ev, fa.region, mags))
